@@ -38,6 +38,7 @@ func checkC20(p *core.Program, r *core.Report) {
 	r.Rule("O20.1", "prover server serves the instrumented mux; metrics server serves HandlerFor(same registry) at /metrics; two distinct servers, both started")
 	r.Rule("O20.2", "the /prove handler is registered only through the instrumented mux; nothing on the default mux")
 	r.Rule("O20.7", "the /metrics handler is not throttled (no MaxRequestsInFlight, no Timeout): it stays available to concurrent and slow scrapes while proofs are generated")
+	r.Rule("O20.8", "the request path does not push the response out itself (Flush / Hijack): the client gets it only after the wrappers counted the request")
 	r.Rule("O20.6", "no lock taken by a registered metrics collector callback is held by the request path across the proving step")
 	r.Rule("O20.5", "the prover server sets no write deadline (WriteTimeout): a counted response must still be sendable however long the proof takes")
 	r.Rule("O20.4", "the handler sets exactly one status per request on every path (the counter records the last WriteHeader)")
@@ -472,6 +473,7 @@ func checkC20(p *core.Program, r *core.Report) {
 					respEntryBind = nil
 					// O20.6: the metrics endpoint stays available while proofs are generated
 					checkMetricsNotBlockedByProving(p, r, he.Fn, provingSystemType(p))
+					checkNoEarlyFlush(p, r, he.Fn)
 				}
 			}
 		}
